@@ -195,6 +195,11 @@ func streamExtractSeq(seed uint64, thorough bool) {
 			extractSeqCase(r, t, fields, uint64(bo+16), true, 1+bo%3)
 		}
 	}
+	for t := 4; t < 8; t++ {
+		for i, fs := range siblingCorpus() {
+			extractSeqCase(r, t, fs, uint64(i), false, 1)
+		}
+	}
 	n := 6000
 	if thorough {
 		n = 60000
@@ -207,6 +212,9 @@ func streamExtractSeq(seed uint64, thorough bool) {
 			fields = genFields(r, sc, 1+r.intn(20), 5, false)
 		} else {
 			fields = genMixedFields(r, sc, 1+r.intn(16))
+		}
+		if r.bool() {
+			fields = addSiblings(r, fields, 30)
 		}
 		extractSeqCase(r, target, fields, uint64(r.intn(65536)), r.intn(3) == 0, r.intn(7))
 	}
